@@ -11,10 +11,14 @@ ID = 'C11'
 LEVEL = 'model_checking'
 RULE = ('E2 state machine + E1: the state is the legacy switch, observed '
         'behaviourally (tags emitted for the probes 40000 and 3000000000); '
-        'events support_deprecated_rabbitmq(), (True), (False); BFS over '
-        'events with state deduplication plus all 3^4 event sequences '
-        'without deduplication (the same frame objects re-encoded after '
-        'every event), each transition compared with the 2-state model. In each state the full observation: every integer of '
+        'events support_deprecated_rabbitmq(), (True), (False) and three '
+        'calls that must leave the state alone (an encode refused part-way, '
+        'a failed decode, a successful encode); BFS over events with state '
+        'deduplication plus all 6^4 (thorough 6^6) event sequences without '
+        'deduplication under three observation modes (observe at the end '
+        'only / probe after every event / re-encode the same frame objects '
+        'after every event), each transition compared with the 2-state '
+        'model. In each state the full observation: every integer of '
         '[-70000, 70000], every n within 2 (thorough 4096) of +-2^7 .. '
         '+-2^64, all +-2^k+-1 for k <= 70 and seeded 64-bit integers, at '
         'four positions (table_integer, top-level value, array element, '
@@ -27,15 +31,20 @@ RULE = ('E2 state machine + E1: the state is the legacy switch, observed '
         'TypeError. A case is (state, integer, position) or a transition; '
         'non-trivial = integer outside [-128, 127] or a transition.')
 BOUNDS = {'quick': {'dense_range': '[-70000, 70000]', 'boundary_radius': 2,
-                    'toggle_sequences': '3^4'},
+                    'toggle_sequences': '6 events ^ 4 x 3 observation modes'},
           'thorough': {'dense_range': '[-70000, 70000]',
-                       'boundary_radius': 4096, 'toggle_sequences': '3^6'}}
+                       'boundary_radius': 4096,
+                       'toggle_sequences': '6 events ^ 6 x 3 observation '
+                       'modes'}}
 ASSUMPTIONS = ['the ladder order b s u I i l (legacy b s I l) is the '
                'documented one; integers between the dense range and the '
                'boundary neighbourhoods are represented by seeded samples']
 
 BOUNDARIES = [2**7, 2**8, 2**15, 2**16, 2**31, 2**32, 2**63, 2**64]
-EVENTS = ['()', '(True)', '(False)']
+# the three toggles, and three calls that must NOT change the ladder in
+# use: an encode refused part-way, a failed decode, a successful encode
+EVENTS = ['()', '(True)', '(False)', 'refused-encode', 'failed-decode',
+          'encode']
 SELFTEST_TASK = ('toggle',)
 
 
@@ -71,12 +80,40 @@ def apply_event(ev):
         e.support_deprecated_rabbitmq()
     elif ev == '(True)':
         e.support_deprecated_rabbitmq(True)
-    else:
+    elif ev == '(False)':
         e.support_deprecated_rabbitmq(False)
+    elif ev == 'refused-encode':
+        p = lib.pamqp()
+        for bad in (lambda: p.frame.marshal(p.header.ContentHeader(
+                        0, 1, p.commands.Basic.Properties(
+                            app_id='a', headers={'a': 40000, 'k': 2**64})), 1),
+                    lambda: e.by_type({'k': object}, 'table'),
+                    lambda: p.frame.marshal(p.commands.Queue.Declare(
+                        queue='q', arguments={'z': [1, 2**70]}), 1)):
+            try:
+                bad()
+                raise AssertionError('refused encode was accepted')
+            except (TypeError, ValueError, OverflowError):
+                pass
+    elif ev == 'failed-decode':
+        p = lib.pamqp()
+        try:
+            p.frame.unmarshal(b'\x01\x00\x01\x00\x00\x00\x0a\x00\x32\x00'
+                              b'\x0a\x00\x00\x01q\x00\xff\xce')
+        except p.exceptions.UnmarshalingException:
+            pass
+    else:
+        p = lib.pamqp()
+        p.frame.marshal(p.commands.Basic.Ack(delivery_tag=5), 1)
+        e.by_type({'n': 1}, 'table')
 
 
 def model_next(state, ev):
-    return ev != '(False)'
+    if ev in ('()', '(True)'):
+        return True
+    if ev == '(False)':
+        return False
+    return state
 
 
 def walk_tags(data):
@@ -308,7 +345,12 @@ def check_toggle(ctx):
     keep_props = p.commands.Basic.Properties(headers=table, app_id='x')
     keep_header = p.header.ContentHeader(0, 1, keep_props)
     keep_method = p.commands.Queue.Declare(queue='q', arguments=table)
-    for seq in itertools.product(EVENTS, repeat=depth):
+    # three observation modes, because observing is itself a call that may
+    # disturb (or repair) hidden state: observe only at the end, probe the
+    # ladder after every event, re-encode the kept objects after every event
+    for seq, mode in itertools.product(
+            itertools.product(EVENTS, repeat=depth),
+            ('end', 'probe', 'objects')):
         set_switch(False)
         mstate = False
         p.frame.marshal(keep_header, 1), p.frame.marshal(keep_method, 1)
@@ -316,7 +358,12 @@ def check_toggle(ctx):
             apply_event(ev)
             mstate = model_next(mstate, ev)
             ctx.calls()
-            for label, obj, want in (
+            last = i == len(seq) - 1
+            if mode == 'end' and not last:
+                continue
+            for label, obj, want in () if mode == 'probe' or (
+                    mode == 'end' and fingerprint() != MODEL_FP[mstate]) \
+                    else (
                     ('ContentHeader', keep_header, refcodec.enc_header_frame(
                         1, {'headers': table, 'app_id': 'x'}, 1, mstate)[0]),
                     ('Queue.Declare', keep_method, refcodec.enc_method_frame(
@@ -344,7 +391,7 @@ def check_toggle(ctx):
                 break
         else:
             ctx.outcome('ok')
-        ctx.case(('seq', seq), True)
+        ctx.case(('seq', seq, mode), True)
         ctx.valid()
         # the boundary observation in the final state
         for b in BOUNDARIES[:6]:
